@@ -426,6 +426,7 @@ def suite_oaw(ctx):
     rng = ctx.nprng('oaw')
     ncase = 160 if ctx.thorough else 48
     lines, meta, slines, smeta = [], [], [], []
+    search_lines, search_meta = [], []
     bad = []
     nv0 = len(ctx.violations)
     stats = {'ok': 0, 'none': 0, 'err': 0, 'sea': 0, 'vector': 0,
@@ -480,9 +481,37 @@ def suite_oaw(ctx):
             " | " + (fql(vec) if vec is not None else "") +
             " | " + (fq(p['seasurface']) if 'seasurface' in p else "") +
             " | " + fql(fr) + " | " + fql(rec.roots) +
-            " | " + " ".join(str(int(v)) for v in np.unique(p['cell_numbers']))
-            + " | " + str(nsa) + " " + " ".join(map(str, ncas)))
+            # (no cell numbers: the search itself is compared through the
+            # `search` op on the floats the code used)
+            " |  | " + str(nsa) + " " + " ".join(map(str, ncas)))
+        if 'seasurface' in p and (p['seasurface']-p['center'])/dmin > 80:
+            # hundreds of exact powers of a float root: too expensive for the
+            # exact model; the postcondition monitors above still apply
+            stats['model_skipped_many_sea_cells'] = \
+                stats.get('model_skipped_many_sea_cells', 0) + 1
+            ctx.count(key=('oaw-monitor-only', t))
+            continue
         lines.append(ln)
+        # the triple search alone, on the floats the code used (centre part
+        # after the sea-surface step, survey and computational domain)
+        cs0 = rec.stretch
+        cdl = [c for c in cs0 if c[5]]
+        if len(cs0) > 12000:
+            stats['search_skipped_expensive'] = \
+                stats.get('search_skipped_expensive', 0) + 1
+        elif cs0 and kind in ('ok', 'none'):
+            f0 = cs0[0]
+            cdom = cdl[0][4] if cdl else None
+            if cdom is None:
+                # no survey-domain step ever succeeded: the computational
+                # domain was never used; any value will do
+                cdom = f0[4]
+            search_lines.append(
+                f"search | {fq(f0[0][0])} {fq(f0[0][1])} | {fql(f0[1])} | "
+                f"{fq(f0[4][0])} {fq(f0[4][1])} {fq(cdom[0])} {fq(cdom[1])} | "
+                + " ".join(str(int(v)) for v in np.unique(p['cell_numbers']))
+                + f" | {fq(st[0])} {fq(st[1])} {nsa} " + " ".join(map(str, ncas)))
+            search_meta.append(len(lines)-1)
         meta.append((p, kw, kind, x0, hx, rec, sal, dmin, wl))
         # --- sampled recorded _stretch calls
         cs = rec.stretch
@@ -500,8 +529,11 @@ def suite_oaw(ctx):
                        p['mapping'], p['frequency'] > 0, len(p['_sigma']),
                        p['lambda_from_center'], p['center_on_edge'],
                        tuple(st)))
-    out = common.run_driver(lines + slines, timeout=3000, jobs=8)
-    o1, o2 = out[:len(lines)], out[len(lines):]
+    out = common.run_driver(lines + slines + search_lines, timeout=3000,
+                            jobs=8)
+    o1 = out[:len(lines)]
+    o2 = out[len(lines):len(lines)+len(slines)]
+    o3 = dict(zip(search_meta, out[len(lines)+len(slines):]))
     # per-call correspondence
     for (t, i, c), o in zip(smeta, o2):
         r = c[6]
@@ -522,7 +554,8 @@ def suite_oaw(ctx):
             bad.append(('stretch-call', t, i, stretch_line(c)[:300], o[:200],
                         str(c[6])[:200]))
     # whole-function correspondence
-    for (p, kw, kind, x0, hx, rec, sal, dmin, wl), o in zip(meta, o1):
+    for ci, ((p, kw, kind, x0, hx, rec, sal, dmin, wl), o) in enumerate(
+            zip(meta, o1)):
         if o in ('err-domain', 'err-seasurface'):
             if kind != o:
                 bad.append(('error-kind', kind, o, repr(kw)[:300]))
@@ -562,10 +595,16 @@ def suite_oaw(ctx):
                 scc = max(abs(c0), abs(c1), 1.0)
                 if not (abs(g[0]-c0) <= 1e-9*scc and abs(g[1]-c1) <= 1e-9*scc):
                     mism.append(('comp-domain', g, (c0, c1)))
-        if parts[4] == 'none':
+        # found grid: from the search on the code's own floats
+        so = o3.get(ci)
+        sparts = [x.strip() for x in so.split('|')] if so else ['none']
+        if so is None:
+            pass
+        elif sparts[0] == 'none':
             if kind != 'none':
                 mism.append(('found', kind, 'none'))
         else:
+            parts = parts[:4] + sparts
             a = parts[4].split()
             nx, isa, ica, sdlen, mx0 = int(a[0]), int(a[1]), int(a[2]), \
                 int(a[3]), float(Fr(a[4]))
